@@ -43,18 +43,24 @@ ASSUMPTIONS = [
 ]
 
 HIST = gen.GenCfg(min_steps=3, max_steps=10, max_exchanges=2, max_holders=2, tie_prob=0.0)
+HIST_D = gen.GenCfg(min_steps=3, max_steps=8, max_exchanges=2, max_holders=1, tie_prob=0.0, long_gaps=True, start_years=(2016, 2019))
 
 
 def budget(tier: str) -> Dict[str, Any]:
     if tier == "quick":
-        return {"shards": 16, "examples": 12, "shrink": False, "machine_examples": 4, "machine_steps": 6}
+        return {"shards": 16, "examples": 16, "shrink": False, "machine_examples": 4, "machine_steps": 6}
     return {"shards": 16, "examples": 75, "shrink": False, "machine_examples": 12, "machine_steps": 8}
 
 
 @st.composite
 def strategy_case(draw: Any) -> Dict[str, Any]:
-    mode = draw(st.sampled_from(["a", "c", "c", "d"]))
-    case = draw(filegen.file_case(countries=("us", "us", "generic", "es", "ie", "jp"), hist=HIST, max_assets=3, min_assets=2 if mode == "d" else 1, shuffle_rows=False))
+    mode = draw(st.sampled_from(["a", "c", "c", "d", "d"]))
+    if mode == "d":
+        # asset independence: several assets whose active years differ (sparse, multi-year histories), JP over-represented because
+        # its report chains each asset's year sheets
+        case = draw(filegen.file_case(countries=("us", "generic", "ie", "jp", "jp", "jp"), hist=HIST_D, max_assets=3, min_assets=2, shuffle_rows=False, flavours=("sparse_years", "sparse_years", "mixed", "disposal_years")))
+    else:
+        case = draw(filegen.file_case(countries=("us", "us", "generic", "es", "ie", "jp"), hist=HIST, max_assets=3, min_assets=1, shuffle_rows=False))
     case["mode"] = mode
     if mode == "a":
         case["hashseed"] = draw(st.sampled_from(["1", "2", "random", "12345"]))
@@ -233,6 +239,21 @@ def evaluate(case: Dict[str, Any]) -> Outcome:
                     out.fail("asset_results_depend_on_other_assets", f"{what}: Summary lines of {asset_a} differ: {mine[:2]} vs {theirs[:2]}")
                     return out
                 tax_name = f"{label}_tax_report_{case['country']}.ods"
+                if case["country"] == "jp" and os.path.exists(os.path.join(outdir, tax_name)):
+                    # the asset's year sheets (values and formula text, i.e. also which sheet the opening balance refers to)
+                    jp_full = files.read_ods(os.path.join(outdir, tax_name))
+                    jp_sub = files.read_ods(os.path.join(directory, tax_name)) if os.path.exists(os.path.join(directory, tax_name)) else {}
+                    mine_jp = {name: sheet_cells(rows) for name, rows in jp_full.items() if name.startswith(asset_a + "_") and name[len(asset_a) + 1 :].isdigit()}
+                    theirs_jp = {name: sheet_cells(rows) for name, rows in jp_sub.items() if name.startswith(asset_a + "_") and name[len(asset_a) + 1 :].isdigit()}
+                    if mine_jp != theirs_jp:
+                        differing = sorted(set(mine_jp) ^ set(theirs_jp)) or [n for n in mine_jp if mine_jp[n] != theirs_jp[n]]
+                        detail = ""
+                        for name in differing[:1]:
+                            a, b = mine_jp.get(name, []), theirs_jp.get(name, [])
+                            idx = next((i for i, (x, y) in enumerate(zip(a, b)) if x != y), min(len(a), len(b)))
+                            detail = f" (sheet '{name}' row {idx + 1}: {a[idx][:9] if idx < len(a) else None} vs {b[idx][:9] if idx < len(b) else None})"
+                        out.fail("asset_results_depend_on_other_assets", f"{what}: tax_report_jp sheets of {asset_a} differ from the run with all assets: {differing[:3]}{detail}")
+                        return out
                 if case["country"] in ("us", "ie") and os.path.exists(os.path.join(outdir, tax_name)):
                     def tax_rows(path: str) -> List[Any]:
                         collected = []
